@@ -1598,6 +1598,7 @@ pub fn check(tier: &str, seed: u64) -> i32 {
                 }
                 serde_json::from_value(out.clone()).unwrap_or_else(|e| harness_error(&format!("C15 result: {e}")))
             }
+            Body::Timeout { seconds } => harness_error(&format!("a C15 history did not finish within {seconds} s: {}", serde_json::to_string(&cases[i]).unwrap_or_default())),
             _ => harness_error("wrong result kind"),
         };
         *by_learner.entry(format!("{:?}{}", cases[i].learner, if cases[i].f32 { "/f32" } else { "/f64" })).or_default() += 1;
